@@ -403,8 +403,8 @@ def h_exit_class_composed(eng):
     for i in range(n):
         p = PrefixList(eng, "sym%d" % i)
         p.has["output"] = z3.BoolVal(False)
-        if i > 0:
-            # (path budget) only the first symbol ranges over all categories; the others are state or algebraic
+        if i > 0 and getattr(eng, "tier", "quick") != "thorough":
+            # (path budget, quick tier) only the first symbol ranges over all categories; the others are state or algebraic
             for kw in ("constant", "parameter", "input"):
                 p.has[kw] = z3.BoolVal(False)
         s = VObj(VClass("Symbol"), {"name": "v%d" % i, "prefixes": p, "order": i})
